@@ -151,6 +151,11 @@ func vars(d gen.DataSpec) jet.VarMap {
 	nop := jet.Func(func(a jet.Arguments) reflect.Value { return reflect.ValueOf("") })
 	vm.SetFunc("fail", nop)
 	vm.SetFunc("mark", nop)
+	vm.SetFunc("letg", func(a jet.Arguments) reflect.Value {
+		a.Runtime().LetGlobal(a.Get(0).String(), a.Get(1).Interface())
+		return reflect.ValueOf("")
+	})
+	vm.Set("plain", &plainStrRanger{items: []string{"pa"}})
 	vm.Set("rng", &plainStrRanger{items: []string{"ra", "rb"}})
 	vm.Set("rnd", litRenderer{})
 	return vm
